@@ -15,7 +15,7 @@ RULE = ('base grammars: every single-rule FGG over Shapes(3,2,2) with >= 2 edges
         'multi-nonterminal family, and the recursive templates of mc/ir.py with three or four weightings each; presentation dimensions: rule '
         'order (all permutations), node insertion order of each rule (all), edge insertion order of each rule (all), id '
         'scheme (implicit / ascending / descending / mixed), node- and edge-label renaming (order-reversing bijection), '
-        'permutation of each domain\'s values together with the factor axes (all), construction path (API vs JSON vs heads-first: each rule registered before its edges are added); '
+        'permutation of each domain\'s values together with the factor axes (all), construction path (API vs JSON vs heads-first: each rule registered before its edges are added, vs assembled on a copy of a skeleton grammar while another copy is extended too); '
         'states = presentations at distance <= 1 (thorough: <= 2) from the default; in every state sum_product under 4 '
         'semirings x methods, gradients (Real, Log) and the weight of the viterbi derivation for every start assignment '
         'must equal those of the default presentation (start tensor and gradients permuted accordingly). transitions = '
@@ -117,7 +117,7 @@ def dimension_values(ir):
             if p != tuple(range(size)):
                 dp.append({'dom_perm': {l: p}})
     dims['dom_perm'] = dp
-    dims['path'] = [{'json': True}, {'heads_first': True}]
+    dims['path'] = [{'json': True}, {'heads_first': True}, {'via_copy': True}]
     return dims
 
 
